@@ -17,7 +17,7 @@ class C03(core.Check):
     GEN = ['gen_mbf']
     PROPS = 'props/C03.v'
     MODEL_IMPORTS = ['gen.Gen_mbf', 'model.MBF']
-    QUICK_CASES = 1500
+    QUICK_CASES = 1000
     THOROUGH_CASES = 12000
     TRUSTED = ['idiom layer of translate/targets/gen_mbf.py + lib/MBFPrims.v (value buffers as byte lists; '
                'buffer-length class invariant)',
@@ -101,8 +101,10 @@ class C03(core.Check):
                 else:       # malformed: a character that is not a digit of the base
                     d = [rng.choice([48, 55, 56, 57, 65, 70, 71, 90, 47, 58, 64]) for _ in range(rng.randrange(1, 5))]
                 add({'op': op, 'd': d})
-            else:
+            elif r < 0.95 or self.tier == 'thorough':
                 add({'op': 'sweep', 'lo': rng.randrange(-32768, 32768 - SWEEP + 1)})
+            else:
+                add({'op': rng.choice(['cint', 'fix', 'int']), 'v': M.rand_value(rng, (4, 8))})
         if self.tier == 'thorough':
             for lo in range(-32768, 32768, SWEEP):
                 add({'op': 'sweep', 'lo': lo}, 'sweep:exhaustive')
